@@ -60,31 +60,36 @@ ASSUMPTIONS = ["templates have typesGH 5-tuples on every node, no wildcard atoms
                "hydrogen mode matches how the template is written (as in C03)",
                "search threshold = the engine default 5000, no max_results, pre_filter off, strict_cc_count on (SynReactor defaults)"]
 TESTED_NOT_PROVED = [
-    "RDKit half: substrate parsing and result serialisation/standardisation are invariant under rewriting (metamorphic oracle on the "
-    "implementation: equal sets of Standardize.fit strings across writings, strategies, repeated calls)",
+    "RDKit half: result serialisation/standardisation (graph_to_smi, Standardize.fit) maps observationally equal ITS graphs to equal "
+    "strings — metamorphic oracle on the implementation: equal sets of strings across writings, strategies, repeated calls, histories "
+    "(that a rewritten SMILES parses to the same graph is CHECKED per case inside Coq: rewriting_okb)",
     "explicit-hydrogen path (pattern keeps X-H bonds: re-matching on the hydrogen-expanded substrate), the _explicit_h stage and rule "
-    "preparation in the default mode: modelled and compared on every run, not covered by the invariance theorems (new hydrogen ids and "
-    "h_pairs ids are allocated in numeric order: results are isomorphic, not renumbered)",
-    "the two writings handed to the model are the same graph up to numbering and order (premise same_graph of the set-level theorems): "
-    "the oracle checks the parsed hosts for isomorphism; every other premise (side_okb_c, including the component-aware bound) is "
-    "evaluated inside the model on every writing",
-    "repeated calls on the same reactor object / same template object return the same list (oracle; the model is a pure function)",
+    "preparation in the default mode for templates that write hydrogen changes with explicit H atoms: modelled and compared on every run, "
+    "not covered by the invariance theorems (new hydrogen ids and h_pairs ids are allocated in numeric order: results are isomorphic, "
+    "not renumbered); hydrogen-free templates in the default mode ARE covered",
+    "state: the implementation's lazily cached fields, shared objects, module-level caches — histories in a fresh interpreter (both orders, "
+    "input forms, result-neutral options, repeated reads, in-place renumbering of a shared template, emptied results); the model is a pure "
+    "function",
+    "the partial-matching option (PartialMatcher engine, not modelled): metamorphic oracle only",
 ]
 LEVEL_TEXT = ("Machine-checked proof (Coq) over an executable model of the whole graph-level rule-application pipeline (SynRule preparation, "
-              "search strategies ALL/COMPONENT/BACKTRACK over a verified monomorphism enumerator, pruning by rule automorphisms, gluing). "
-              "Proved for all inputs: (1) every stage and the result list commute literally with any injective renumbering of substrate "
-              "and template, for every strategy; (2) for every strategy the SET of glued ITS graphs is invariant under arbitrary rewriting "
-              "of both inputs (renumbering plus any re-ordering of atoms, bonds and bond orientation): raw match sets coincide, the glue "
-              "depends only on the graphs as functions and on the match as a set of pairs, matches related by a rule automorphism glue to "
-              "the same ITS, pruning keeps one match of every class; in implicit-hydrogen mode this holds from the template ITS (rule "
-              "preparation only depends on the template as a graph); (3) every component-aware match is an exhaustive match and BACKTRACK "
-              "returns the COMPONENT result whenever that is non-empty. Scope of (1)-(2): patterns without explicit X-H bonds, before the "
-              "_explicit_h stage. The model is tied to the Python code on every run by comparing, per writing and strategy, match counts "
-              "and the multiset of glued ITS graphs, and the theorems' premises are evaluated on every writing; the RDKit half (parsing, "
-              "canonical output) and the explicit-hydrogen path are covered by the correspondence and a metamorphic oracle, not by proof.")
+              "search strategies ALL/COMPONENT/BACKTRACK over a verified monomorphism enumerator, pruning by rule automorphisms, gluing, "
+              "_explicit_h). Proved for all inputs: (1) every stage and the result list commute literally with any injective renumbering of "
+              "substrate and template, for every strategy; (2) for every strategy the SET of glued ITS graphs is invariant under arbitrary "
+              "rewriting of both inputs (renumbering plus any re-ordering of atoms, bonds and bond orientation) — raw match sets coincide, "
+              "the glue depends only on the graphs as functions and on the match as a set of pairs, matches related by a rule automorphism "
+              "glue to the same ITS, pruning keeps one match of every class — from the template ITS to its_list in implicit-hydrogen mode "
+              "and, for hydrogen-free templates, in the default configuration (where the _explicit_h stage is shown to be the identity); "
+              "(3) component-aware matches and results are exhaustive matches / results, BACKTRACK returns the COMPONENT result whenever "
+              "that is non-empty. Every premise about the two writings is a boolean that the run function evaluates on each compared "
+              "writing of each case (well-formedness and threshold premises, and 'the other writing is the base renumbered and "
+              "re-ordered', with renumberings found on the graphs the implementation parsed). The model is tied to the Python code on "
+              "every run by comparing, per writing and strategy, match counts and the multiset of glued ITS graphs; the RDKit "
+              "serialisation, patterns with explicit X-H bonds, explicit-hydrogen templates in the default mode and the partial-matching "
+              "engine are covered by the correspondence and a metamorphic oracle with histories, not by proof.")
 LEVEL_NOTE = ("Trusted: Coq kernel + vm_compute; the models and encoders; VF2 and RDKit contracts (monitored, not proved). Imports, read-only: "
-              "C03 glue lemmas (proof/C03_Proof.v, C03_Glue.v, C03_Iso.v, C03_Backward.v), C06 strategy specification (lib/C06_Spec.v, "
-              "proof/C06_*.v), C11 pruning completeness (proof/C11_Dedup.v).")
+              "C03 glue and preparation lemmas (proof/C03_Proof.v, C03_Glue.v, C03_Iso.v, C03_Backward.v, C03_Default.v), C06 strategy "
+              "specification (lib/C06_Spec.v, proof/C06_*.v), C11 pruning completeness (proof/C11_Dedup.v).")
 TECHNIQUE = "Coq proof about an executable Gallina model + per-run correspondence (vm_compute vs implementation) + metamorphic property oracle"
 DESIGN_REF = "DESIGN.md section 5 C05, section 7 row 17; notes/C05.md"
 
